@@ -5,7 +5,7 @@ patch=$1; shift
 cd /repo || exit 2
 if ! git diff --quiet; then echo "repo dirty, refusing"; exit 2; fi
 git apply "$patch" || { echo "patch does not apply"; exit 2; }
-trap 'git -C /repo checkout -- . ' EXIT
+trap 'git -C /repo checkout -- . && git -C /repo clean -fdq ' EXIT
 for p in "$@"; do
   out=$(/verif/bin/jivacheck -property "$p" -verif /tmp/trymut_verif 2>&1); rc=$?
   echo "== $p rc=$rc"
